@@ -1,0 +1,247 @@
+//! Verification façade, compiled only with `--cfg eigerco_lumina_verif`.
+//!
+//! Thin public wrappers around crate-private components so that an external simulator can drive
+//! the real `Syncer`, `Daser`, `Pruner`, header-ex handlers, codecs, trackers and counters. The
+//! wrappers add no behaviour; with the cfg off none of this exists.
+
+#![allow(missing_docs)]
+
+use std::sync::Arc;
+use std::sync::atomic::{AtomicBool, AtomicUsize, Ordering};
+
+use celestia_types::ExtendedHeader;
+use libp2p::PeerId;
+use libp2p::swarm::ConnectionId;
+use tokio::sync::{broadcast, watch};
+
+use crate::events::{EventChannel, EventPublisher, EventSubscriber};
+use crate::node::subscriptions::BroadcastingStore;
+use crate::peer_tracker::{PeerTracker, PeerTrackerInfo};
+use crate::store::{Store, StoreError};
+use crate::utils::Counter;
+
+pub use crate::daser::verif_daser::{
+    DaserCommand, DaserCommands, DaserHandle, mocked_daser, start_daser,
+};
+pub use crate::p2p::verif_p2p::verif_hx as hx;
+pub use crate::p2p::verif_p2p::verif_shrex as shrex;
+pub use crate::p2p::verif_p2p::{
+    MockedP2p, P2pCommand, P2pHandle, convert_cid, get_block_container, mocked_p2p, sample_cid,
+    shwap_hash,
+};
+pub use crate::pruner::verif_pruner::{PrunerHandle, WindowSearch, start_pruner};
+pub use crate::syncer::verif_syncer::{SyncerHandle, calculate_range_to_fetch, start_syncer};
+
+/// Event channel of a node.
+pub struct Events(EventChannel);
+
+impl Events {
+    pub fn new() -> Self {
+        Events(EventChannel::new())
+    }
+
+    pub fn subscribe(&self) -> EventSubscriber {
+        self.0.subscribe()
+    }
+
+    pub(crate) fn publisher(&self) -> EventPublisher {
+        self.0.publisher()
+    }
+}
+
+impl Default for Events {
+    fn default() -> Self {
+        Self::new()
+    }
+}
+
+/// `BroadcastingStore` wrapper.
+pub struct Broadcasting<S: Store>(BroadcastingStore<S>);
+
+impl<S: Store> Broadcasting<S> {
+    pub fn new(store: Arc<S>) -> Self {
+        Broadcasting(BroadcastingStore::new(store))
+    }
+
+    pub fn init_broadcast(&mut self, head: ExtendedHeader) {
+        self.0.init_broadcast(head)
+    }
+
+    pub fn subscribe(&self) -> broadcast::Receiver<ExtendedHeader> {
+        self.0.subscribe()
+    }
+
+    pub async fn announce_insert(&mut self, range: Vec<ExtendedHeader>) -> Result<(), StoreError> {
+        self.0.announce_insert(range).await
+    }
+}
+
+/// Snapshot of one tracked peer.
+#[derive(Debug, Clone, PartialEq, Eq)]
+pub struct PeerSnapshot {
+    pub id: PeerId,
+    pub connected: bool,
+    pub trusted: bool,
+    pub protected: bool,
+    pub archival: bool,
+    pub full: bool,
+}
+
+/// `PeerTracker` wrapper.
+pub struct Peers(PeerTracker);
+
+impl Peers {
+    pub fn new(events: &Events) -> Self {
+        Peers(PeerTracker::new(events.publisher()))
+    }
+
+    pub(crate) fn tracker(&self) -> &PeerTracker {
+        &self.0
+    }
+
+    pub fn info(&self) -> PeerTrackerInfo {
+        self.0.info()
+    }
+
+    pub fn info_watcher(&self) -> watch::Receiver<PeerTrackerInfo> {
+        self.0.info_watcher()
+    }
+
+    pub fn snapshot(&self) -> Vec<PeerSnapshot> {
+        self.0
+            .peers()
+            .map(|p| PeerSnapshot {
+                id: *p.id(),
+                connected: p.is_connected(),
+                trusted: p.is_trusted(),
+                protected: p.is_protected(),
+                archival: p.is_archival(),
+                full: p.is_full(),
+            })
+            .collect()
+    }
+
+    pub fn is_protected_with_tag(&self, peer: &PeerId, tag: u32) -> bool {
+        self.0.is_protected_with_tag(peer, tag)
+    }
+
+    pub fn add_peer_id(&mut self, peer: &PeerId) -> bool {
+        self.0.add_peer_id(peer)
+    }
+
+    pub fn set_trusted(&mut self, peer: &PeerId, trusted: bool) {
+        self.0.set_trusted(peer, trusted)
+    }
+
+    pub fn protect(&mut self, peer: &PeerId, tag: u32) -> bool {
+        self.0.protect(peer, tag)
+    }
+
+    pub fn unprotect(&mut self, peer: &PeerId, tag: u32) -> bool {
+        self.0.unprotect(peer, tag)
+    }
+
+    pub fn protected_len(&self, tag: u32) -> usize {
+        self.0.protected_len(tag)
+    }
+
+    pub fn add_connection(&mut self, peer: &PeerId, connection: usize) {
+        self.0
+            .add_connection(peer, ConnectionId::new_unchecked(connection))
+    }
+
+    pub fn remove_connection(&mut self, peer: &PeerId, connection: usize) {
+        self.0
+            .remove_connection(peer, ConnectionId::new_unchecked(connection))
+    }
+
+    pub fn on_agent_version(&mut self, peer: &PeerId, agent_version: &str) {
+        self.0.on_agent_version(peer, agent_version)
+    }
+
+    pub fn mark_as_archival(&mut self, peer: &PeerId) {
+        self.0.mark_as_archival(peer)
+    }
+
+    pub fn gc(&mut self) {
+        self.0.gc()
+    }
+}
+
+/// `Counter` wrapper.
+pub struct VCounter(Counter);
+
+/// `CounterGuard` wrapper.
+pub struct VGuard(#[allow(dead_code)] crate::utils::CounterGuard);
+
+impl VCounter {
+    pub fn new() -> Self {
+        VCounter(Counter::new())
+    }
+
+    pub fn guard(&self) -> VGuard {
+        VGuard(self.0.guard())
+    }
+
+    pub async fn wait_guards(&mut self) {
+        self.0.wait_guards().await
+    }
+}
+
+impl Default for VCounter {
+    fn default() -> Self {
+        Self::new()
+    }
+}
+
+// ---------------------------------------------------------------------------------------------
+// Scheduling hooks (no-ops unless installed)
+
+static YIELD_HOOK: AtomicUsize = AtomicUsize::new(0);
+
+/// Installs the function called at every `yield_point`.
+pub fn install_yield_hook(f: fn(&'static str)) {
+    YIELD_HOOK.store(f as usize, Ordering::SeqCst);
+}
+
+/// Removes the yield hook.
+pub fn clear_yield_hook() {
+    YIELD_HOOK.store(0, Ordering::SeqCst);
+}
+
+/// A named point at which a controlled scheduler may switch threads.
+#[inline]
+pub(crate) fn yield_point(name: &'static str) {
+    let f = YIELD_HOOK.load(Ordering::Relaxed);
+
+    if f != 0 {
+        // Safety: only `install_yield_hook` stores non-zero values, always a valid `fn(&'static str)`.
+        let f: fn(&'static str) = unsafe { std::mem::transmute(f) };
+        f(name);
+    }
+}
+
+thread_local! {
+    static INLINE_BLOCKING: std::cell::Cell<bool> = const { std::cell::Cell::new(false) };
+}
+
+static INLINE_BLOCKING_EVER: AtomicBool = AtomicBool::new(false);
+
+/// When set on the current thread, `RedbStore` runs its transactions inline instead of on the
+/// blocking pool (a simulator that interleaves several tasks on one thread needs the completion
+/// order to be a function of its own schedule).
+pub fn set_inline_blocking(on: bool) {
+    INLINE_BLOCKING_EVER.store(true, Ordering::Relaxed);
+    INLINE_BLOCKING.with(|c| c.set(on));
+}
+
+#[inline]
+pub(crate) fn inline_blocking() -> bool {
+    INLINE_BLOCKING_EVER.load(Ordering::Relaxed) && INLINE_BLOCKING.with(|c| c.get())
+}
+
+/// Forces process-wide lazily initialised statics, so that which thread happens to touch them
+/// first does not matter.
+pub fn warm_statics() {
+    shrex::warm_statics();
+}
